@@ -353,6 +353,17 @@ func (e *Enc) loadGlobal(h *Heap, g *ssa.Global) Val {
 	panic(unsupported("load of global %s", g.Name()))
 }
 
+// ghostObj: the one object holding the ghost variables of a package; it exists before the function runs.
+func (e *Enc) ghostObj(pkg string) string {
+	name := "ghost!" + pkg
+	if _, seen := e.declared[name]; !seen {
+		e.declare("alloc@0", "Int")
+		a := e.declare(name, "Int")
+		e.decls = append(e.decls, fmt.Sprintf("(assert (and (< 0 %s) (<= %s |alloc@0|)))", a, a))
+	}
+	return e.declare(name, "Int")
+}
+
 var errGlobalsDeclared = "errglobals"
 
 func (e *Enc) declareErrGlobals() {
